@@ -286,6 +286,15 @@ fn vrun_program_inner(src: &str, only: Option<(&str, &[Vec<VV>])>, nvec: usize, 
                 [r] if r.head() == "ret" && r.args().len() == 1 => Some(&r.args()[0]),
                 _ => None,
             });
+        // … or `(b (expr (op <assignment> place rhs)) (ret (var x)))`: the whole body is sent
+        let assign_body: Option<&Sx> = p
+            .prog
+            .iter()
+            .find(|x| x.head() == "fn" && x.args()[0].atom() == fid.to_string())
+            .and_then(|f| match f.args()[3].args() {
+                [e, r] if e.head() == "expr" && e.args()[0].head() == "op" && r.head() == "ret" && r.args().len() == 1 && r.args()[0].head() == "var" => Some(&f.args()[3]),
+                _ => None,
+            });
         // the exporter's tree of this function for both flavours (must be the same tree)
         let tree = |m: &Result<Result<rssl_ast::Module, _>, String>| -> Result<Option<Sx>, String> {
             match m {
@@ -319,7 +328,29 @@ fn vrun_program_inner(src: &str, only: Option<(&str, &[Vec<VV>])>, nvec: usize, 
                     let ir_params = p.prog.iter().find(|x| x.head() == "fn" && x.args()[0].atom() == fid.to_string()).map(|f| f.args()[2].args().to_vec()).unwrap_or_default();
                     let ast_params = a1.args()[2].args();
                     let body = a1.args()[3].args();
+                    let ctx_of = |ir_params: &[Sx]| -> String {
+                        ir_params
+                            .iter()
+                            .zip(ast_params)
+                            .map(|(ip, ap)| format!("{}:{}:{}", ip.args()[0].atom(), ap.args()[0].atom(), ip.args()[2].show()))
+                            .collect::<Vec<_>>()
+                            .join(",")
+                    };
+                    let rets = |ir_results: &[Option<VOutcome>]| -> String {
+                        ir_results
+                            .iter()
+                            .map(|o| match o {
+                                Some(o) => o.ret.as_ref().map(|v| v.show()).unwrap_or_else(|| "v".into()),
+                                None => "none".into(),
+                            })
+                            .collect::<Vec<_>>()
+                            .join(" | ")
+                    };
                     match (ret_expr, body) {
+                        (None, [e, r]) if assign_body.is_some() && e.head() == "expr" && r.head() == "ret" && ir_params.len() == ast_params.len() => {
+                            req = format!("C01.vex\t{}\t{}\t{}\tvars={}\t{}", src1, src_name, show_vvectors(&vectors), ctx_of(&ir_params), assign_body.unwrap().show());
+                            format!("vast {} ;; run {}", e.args()[0].show(), rets(&ir_results))
+                        }
                         (Some(e), [r]) if r.head() == "ret" && r.args().len() == 1 && ir_params.len() == ast_params.len() => {
                             let ctx: Vec<String> = ir_params
                                 .iter()
@@ -427,5 +458,7 @@ pub fn vprogram(seed: u64, k: u64) -> String {
 pub fn vex_source(seed: u64, k: u64) -> String {
     let mut rng = Rng::new(seed.wrapping_mul(0x2545_F491_4F6C_DD1D) ^ k.wrapping_mul(0x9E37_79B9_7F4A_7C15) ^ 0x76657821);
     let opts = super::vgen::VGenOpts { max_depth: 1 + (k % 4) as u32, matrices: false, structs: false, enums: false, pure: true };
-    super::vgen::VGen::new(&mut rng, opts).expression_function()
+    let mut g = super::vgen::VGen::new(&mut rng, opts);
+    // every fourth: a statement-level assignment to a vector parameter / a swizzle of it
+    if k % 4 == 3 { g.assignment_function() } else { g.expression_function() }
 }
